@@ -1,6 +1,6 @@
 #!/bin/bash
 # usage: tools/confirm_seed.sh <ID>: demo both ways, baseline with the change, all checks on the change
-ID=$1; SRC=/tmp/seed_out/$ID; WT=/tmp/vs_demo
+ID=$1; SRC=${SEEDROOT:-/tmp/seed_out}/$ID; WT=/tmp/vs_demo
 /verif/tools/run_demo.sh $ID 2>&1 | cut -c1-220
 cd $WT && git checkout -q -- . && git clean -fdq -e target && git apply $SRC/patch.diff
 echo "[$ID] baseline with the change:"; /verif/tools/baseline.sh $WT 2>&1 | tail -2
